@@ -150,3 +150,51 @@ prop("C19", coq_deps=["Base.v", "Footprint.v", "FootprintProofs.v", "TableProofs
               "Go race detector (dynamic, the schedules it happens to see)"],
      assumptions=["each goroutine uses its own authorizer (property text)"],
      harness_timeout=1500)
+
+PARSER_DEPS = ["Base.v", "Term.v", "Lexer.v", "Parser.v", "Printer.v", "Corr2.v", "ParserProofs.v", "Generated.v"]
+PARSER_TRUSTED = ["participle is not modelled beyond: ordered first-match lexing over the generated rule table (each recogniser hand-written and "
+                  "pinned to its pattern string), the struct-tag grammar (pinned), literals matched by text / token references by kind, "
+                  "lookahead-1 branch selection as validated against the library on ~15 000 texts by the model's author agent and on every run",
+                  "Go's regexp (lexer patterns), strconv.Unquote beyond backslash-free printable ASCII, time.Parse/Format (replaced by a Gallina "
+                  "RFC3339 implementation with a proved round trip) are not modelled; inputs outside printable ASCII are left to the robustness stream"]
+prop("C14", coq_deps=PARSER_DEPS,
+     theorems=['C14_lexer_rules_pinned', 'C14_grammar_tags_pinned', 'C14_to_ops_postfix', 'C14_tokens_parse_unparse_expr', 'C14_tokens_parse_unparse_check', 'C14_tokens_parse_unparse_rule', 'C14_tokens_parse_unparse_block', 'C14_tokens_parse_unparse_authorizer', 'C14_lex_render', 'C14_parse_unparse_fact', 'C14_parse_unparse_rule', 'C14_parse_unparse_check', 'C14_parse_unparse_policy', 'C14_parse_unparse_block', 'C14_parse_unparse_authorizer', 'C14_comparison_consumes_one', 'C14_rejects_chained_comparison_run', 'C14_rejects_double_negation', 'C14_variable_in_set', 'C14_variable_param_in_set', 'C14_unbound_parameter', 'C14_malformed_date', 'C14_malformed_hex', 'C14_bad_term_in_predicate', 'C14_bad_term_in_expression', 'C14_lex_total', 'C14_parse_fact_total', 'C14_parse_rule_total', 'C14_parse_check_total', 'C14_parse_policy_total', 'C14_parse_block_total', 'C14_parse_authorizer_total'],
+     trusted=PARSER_TRUSTED,
+     assumptions=["round-trip theorems are for texts rendered from grammar trees with a separator of nothing / one space / one newline between "
+                  "tokens (lexable); other layouts (tabs, several blanks, comments) are covered by the correspondence run",
+                  "'every parsed element can be added to a builder without panicking' is exercised by the harness, not proved (the builder "
+                  "conversion of a successfully converted term is total by typing in the model)"],
+     harness_timeout=900)
+prop("C15", coq_deps=PARSER_DEPS,
+     theorems=['C15_print_expr', 'C15_roundtrip', 'C15_roundtrip_from_grammar', 'C15_date_roundtrip', 'C15_civil_calendar', 'C15_layout_lexes', 'C15_block_layout_lexable', 'C15_print_total'],
+     trusted=PARSER_TRUSTED + ["the printers are modelled over resolved values (S level); symbol resolution through the token's cumulative table is the "
+                               "subject of C07 and is exercised here by printing blocks at every position of real tokens"],
+     assumptions=["printable domain = printable_block (computable); canonical integers/hex/names satisfy it by inspection of tok_ok, proved for dates",
+                  "sets are compared up to element order (the printer sorts them)",
+                  "stability under serialization and position independence are exercised by the harness (Code()/String() before and after "
+                  "Serialize/Unmarshal, block placed at every position), not proved"])
+
+TOKEN_DEPS = WIRE_DEPS + ["SymbolsProofs.v", "TokenProofs.v", "TableProofs.v"]
+TOKEN_TRUSTED = ["Model/Wire.v: hand-written model of the protobuf wire format and of protobuf-go's proto2 decoding rules, field numbers taken from the "
+                 "regenerated schema; tied by byte-exact correspondence (the model must reproduce every marshalled block and envelope)",
+                 "Model/Token.v / History.v: hand-written model of builder.go / biscuit.go at the symbol-index level; tied by the history "
+                 "correspondence (every op outcome, every token's D-level content, cumulative symbol table, envelope and bytes)",
+                 "ed25519 as oracle tables (pub/sign computed by crypto/ed25519)"]
+prop("C07", coq_deps=TOKEN_DEPS, theorems=['C07_varint_roundtrip', 'C07_fields_roundtrip', 'C07_block_roundtrip', 'C07_container_roundtrip', 'C07_resolve_intern', 'C07_content_build', 'C07_build_decode', 'C07_content_append', 'C07_append_decode', 'C07_reload', 'C07_reload_accepts', 'C07_version_gate', 'C07_no_capture', 'C07_operator_tables'], trusted=TOKEN_TRUSTED,
+     assumptions=["tables stay below 2^32 entries (small_table), encodings below 2^64 bytes (small), supplied integers are int64 and dates "
+                  "uint64 (wf_block_c): the numeric ranges of the Go types",
+                  "content theorems are for a token's own blocks, each built once from CreateBlock of that token (token_inv); a block built for "
+                  "another token's table and appended elsewhere has unspecified meaning (Append cannot tell; Unmarshal now rejects it when it "
+                  "dangles)",
+                  "observation (not in this property's quantifier): a FOREIGN token whose block re-declares an earlier symbol is accepted by "
+                  "Unmarshal with a de-duplicated table, diverging from the concatenation rule (unmarshal_redeclared_symbol_diverges)"],
+     harness_timeout=900)
+prop("C08", coq_deps=TOKEN_DEPS, theorems=['C08_frame', 'C08_builder_independence', 'C08_siblings', 'C08_append_keeps_meaning'], trusted=TOKEN_TRUSTED,
+     assumptions=["recorded finding: BlockBuilder.Build twice / reuse after Build (KNOWN_FINDINGS.txt); C08_siblings speaks of the first build",
+                  "tokens and blocks are values in the model; that the Go objects are not mutated behind the model's back is what the "
+                  "per-operation frame oracle of the harness observes (bytes, printed form, ids, content of every live object after every op)"],
+     harness_timeout=900)
+prop("C18", coq_deps=TOKEN_DEPS + ["Snapshot.v", "SnapshotProofs.v", "Corr2.v", "Authz.v"], theorems=['C18_equivalent', 'C18_same_behaviour', 'C18_invariant_reachable', 'C18_refused_when_evaluated', 'C18_refused_after_authorize', 'C18_refused_after_query', 'C18_load_total'],
+     trusted=TOKEN_TRUSTED + ["Model/Snapshot.v: hand-written model of SerializePolicies/LoadPolicies; tied by byte-exact correspondence of the "
+                              "snapshot bytes and of the loaded state"],
+     assumptions=["partial mutations of LoadPolicies before it fails are not modelled (load returns only the error)"])
